@@ -6,20 +6,16 @@
    The C10_* invariants compare what the code REPORTED with the property layer (Eval / the
    configured program P); Conf_* compare with the mechanism layer (informational).
 
-   Recorded findings (findings_proposed/C10-*.md): `kf` remembers which objects of the running
-   trace have been through an input shape of a recorded finding.  The strict invariants ignore
-   `kf`; the narrow invariants C10_<Main>_<Situation> are the strict ones restricted to such a
-   situation (listed first in PolicyTrace.cfg so that a rejection names the situation); the *_KF
-   invariants (PolicyTraceKF.cfg) tolerate exactly the recorded wrong behaviour in that situation. *)
+   The nine findings recorded while this check was built (findings_proposed/C10-*.md) are repaired
+   in /repo; nothing is weakened: there are no *_KF invariants and no exclusions any more. *)
 EXTENDS Policy, TraceUtil
 
-VARIABLES l, P, last, exp, kf, via
-tvars == <<l, P, last, exp, kf, via>>
+VARIABLES l, P, last, exp, via
+tvars == <<l, P, last, exp, via>>
 
 NoLine  == [ev |-> "none"]
 NoRoute == Route(P4("0.0.0.0/0", 0, 0, 0, 0, 0), "local", "", <<>>, 0, -1, -1, <<>>, <<>>, <<>>, "valid", FALSE)
 NoExp   == [e1 |-> Res("und", W(NoRoute), 0), e2 |-> Res("und", W(NoRoute), 0)]
-NoKf    == [stale |-> {}, dead |-> FALSE, dirs |-> {}]
 
 (* JSON arrays arrive as tuples; the spec state holds sets *)
 JCond(c) == [c EXCEPT !.list = SeqToSet(@)]
@@ -32,53 +28,28 @@ JOp(o) ==
     [] OTHER -> o
 
 ---------------------------------------------------------------------------
-(* input shapes of the recorded findings *)
-
-(* KF-C10-delstmt-multi: DeleteStatement(all=false) naming >= 2 conditions or >= 2 actions *)
-MultiCut(o) == o.op = "DelStmt" /\ ~o.all /\ (Cardinality(o.stmt.conds) >= 2 \/ Cardinality(o.stmt.acts) >= 2)
-(* KF-C10-set-replace-stale: AddDefinedSet(replace=true) on a set that statements refer to *)
-StaleBy(o) == IF o.op = "AddSet" /\ o.replace /\ o.name \in DOMAIN P.dsets
-              THEN {n \in DOMAIN P.stmts : o.name \in SetsUsedBy(P.stmts[n])} ELSE {}
-(* KF-C10-delasg-default: DeletePolicyAssignment(all=true) *)
-UnsetsDefault(o) == o.op = "DelAsg" /\ o.all
-
-KfAfter(o) ==
-  [stale   |-> (kf.stale \cup StaleBy(o)) \ (IF o.op = "DelStmt" /\ o.all THEN {o.stmt.name} ELSE {}),
-   \* the multi-cut removes the wrong conditions/actions or crashes half-way: from here on the
-   \* program held by the code is unknown, the rest of the trace is not judged
-   dead    |-> kf.dead \/ MultiCut(o) \/ (MustRefuse(P, o) /\ Trace[l].res = "ok"),
-   dirs    |-> IF UnsetsDefault(o) THEN kf.dirs \cup {o.dir}
-               ELSE IF o.op \in {"SetAsg", "AddAsg"} /\ o.def # "none" THEN kf.dirs \ {o.dir}
-               ELSE kf.dirs]
-
----------------------------------------------------------------------------
-TraceInit == l = 1 /\ P = EmptyProgram /\ last = NoLine /\ exp = NoExp /\ kf = NoKf /\ via = "wb"
+TraceInit == l = 1 /\ P = EmptyProgram /\ last = NoLine /\ exp = NoExp /\ via = "wb"
 
 IsEvent(e) == l <= TLen /\ Trace[l].ev = e /\ l' = l + 1
 
 TReset == /\ IsEvent("Reset")
-          /\ P' = EmptyProgram /\ last' = Trace[l] /\ exp' = NoExp /\ kf' = NoKf
+          /\ P' = EmptyProgram /\ last' = Trace[l] /\ exp' = NoExp
           /\ via' = IF Has(Trace[l], "via") THEN Trace[l].via ELSE "wb"
 
 (* a config step.  res = "ok": applied.  res = "panic": the call crashed (judged by
-   C10_ConfigNoCrash).  Any other answer to an operation the model considers valid is a
-   conformance gap (no action matches), except after the program has been corrupted by the
-   recorded finding KF-C10-delstmt-multi (kf.dead). *)
+   C10_ConfigNoCrash).  A call that must be refused (MustRefuse) leaves the program unchanged when it
+   is refused; when the code accepts it the policy is gone while an assignment still lists it
+   (judged by C10_ReadBack_NoDangling).  Any other answer to an operation the model considers
+   valid is a conformance gap (no action matches). *)
 TCfg == /\ IsEvent("Cfg")
         /\ LET o == JOp(Trace[l].op)
                refused == Trace[l].res \notin {"ok", "panic"}
            IN
-             \* (IF, not \/: TLC splits a disjunction of an action into sub-actions and would evaluate the Assert)
-             /\ IF kf.dead THEN TRUE
-                ELSE Assert(Valid(P, o), <<"schedule holds an operation the model considers invalid", o>>)
-             /\ IF kf.dead \/ MustRefuse(P, o) THEN TRUE ELSE Trace[l].res \in {"ok", "panic"}
-             /\ P' = IF kf.dead /\ ~Valid(P, o) THEN P
-                     \* KF-C10-delpol-assigned: the call that must be refused was accepted; the policy
-                     \* is gone but the assignment still lists it (judged by C10_ReadBack_NoDangling)
-                     ELSE IF MustRefuse(P, o) /\ ~refused THEN [P EXCEPT !.pols = Drop(@, {o.name})]
+             /\ Assert(Valid(P, o), <<"schedule holds an operation the model considers invalid", o>>)
+             /\ IF MustRefuse(P, o) THEN TRUE ELSE ~refused
+             /\ P' = IF MustRefuse(P, o) /\ ~refused THEN [P EXCEPT !.pols = Drop(@, {o.name})]
                      ELSE IF refused THEN P
                      ELSE Apply(P, o)
-             /\ kf' = KfAfter(o)
         /\ last' = Trace[l] /\ exp' = NoExp /\ UNCHANGED via
 
 TEval == /\ IsEvent("Eval")
@@ -88,12 +59,12 @@ TEval == /\ IsEvent("Eval")
                      e2 == Eval(P, o.route, o.d2, o.p2, CodeAmb(o.d2))
                  IN /\ exp' = [e1 |-> e1, e2 |-> e2]
                     \* non-trivial: at least one statement applied to the route in one of the evaluations
-                    /\ NoteIf(~kf.dead /\ e1.hits + e2.hits >= 1, <<o, Flat(P, o.d1), Flat(P, o.d2)>>)
-            ELSE exp' = NoExp      \* an assignment lists a deleted policy (KF-C10-delpol-assigned): not judged
-         /\ UNCHANGED <<P, kf, via>> /\ last' = Trace[l]
+                    /\ NoteIf(e1.hits + e2.hits >= 1, <<o, Flat(P, o.d1), Flat(P, o.d2)>>)
+            ELSE exp' = NoExp      \* an assignment lists a deleted policy: C10_ReadBack_NoDangling has already failed
+         /\ UNCHANGED <<P, via>> /\ last' = Trace[l]
 
 TDump == /\ IsEvent("Dump")
-         /\ UNCHANGED <<P, kf, via>> /\ last' = Trace[l] /\ exp' = NoExp
+         /\ UNCHANGED <<P, via>> /\ last' = Trace[l] /\ exp' = NoExp
 
 TraceNext == TReset \/ TCfg \/ TEval \/ TDump
 TraceSpec == TraceInit /\ [][TraceNext]_tvars
@@ -169,88 +140,6 @@ RbAsgOn(loose) == \A x \in SeqToSet(Rb.asg) :
                     /\ x.def \in P.asg[x.dir].def \cup (IF x.dir \in loose THEN {"none"} ELSE {})
 RbAsg == RbAsgOn({})
 C10_ReadBack == (HasRb /\ NoDangling) => RbSets /\ RbStmts /\ RbPols /\ RbAsg
-
----------------------------------------------------------------------------
-(* situations of the recorded findings *)
-StmtsOf(d)   == SeqToSet(Flat(P, d))
-TaintedBy(d, names, sets) == \E s \in StmtsOf(d) : s.name \in names \/ SetsUsedBy(s) \cap sets # {}
-EvalTaint(names, sets) == IsEval /\ (TaintedBy(Op.d1, names, sets) \/ TaintedBy(Op.d2, names, sets))
-HasActMode(d, k, m) == \E s \in StmtsOf(d) : \E a \in s.acts : a.k = k /\ a.mode = m
-
-SitStale       == EvalTaint(kf.stale, {})
-SitCorrupt     == IsEval /\ kf.dead
-SitDefault     == IsEval /\ {Op.d1, Op.d2} \cap kf.dirs # {}
-SitExtRemove   == IsEval /\ ExtLB \in SeqToSet(Op.route.ext) /\ (HasActMode(Op.d1, "ext", "remove") \/ HasActMode(Op.d2, "ext", "remove"))
-SitLargeAdd    == IsEval /\ (HasActMode(Op.d1, "large", "add") \/ HasActMode(Op.d2, "large", "add"))
-SitMultiCut    == last.ev = "Cfg" /\ MultiCut(JOp(last.op))
-SitApiOrigin   == HasRb /\ via = "api" /\ \E s \in Range(P.stmts) : \E c \in s.conds : c.k = "origin"
-SitApiCommAct  == HasRb /\ via = "api" /\ \E s \in Range(P.stmts) : \E a \in s.acts : a.k \in {"ext", "large"}
-
-(* the strict property restricted to one situation each (PolicyTrace.cfg lists them first) *)
-C10_ConfigNoCrash_MultiCut == SitMultiCut => C10_ConfigNoCrash
-C10_Eval_StaleSet       == SitStale     => (C10_Verdict /\ C10_Attrs)
-C10_Eval_CorruptStmt    == SitCorrupt   => (C10_Verdict /\ C10_Attrs)
-C10_Verdict_DefaultUnset == SitDefault  => C10_Verdict
-C10_Attrs_ExtRemove     == SitExtRemove => C10_Attrs
-C10_StoredUnchanged_LargeAdd == SitLargeAdd => C10_StoredUnchanged
-C10_ReadBack_CorruptStmt  == (HasRb /\ kf.dead) => C10_ReadBack
-C10_ReadBack_DefaultUnset == (HasRb /\ kf.dirs # {}) => RbAsg
-C10_ReadBack_ApiOrigin    == SitApiOrigin  => (RbStmts /\ RbPols)
-C10_ReadBack_ApiCommAct   == SitApiCommAct => RbStmts
-
----------------------------------------------------------------------------
-(* weakened invariants (PolicyTraceKF.cfg): tolerate exactly the recorded wrong behaviour *)
-
-(* KF-C10-delasg-default: after DeletePolicyAssignment(all) the default action is unset and every
-   route that reaches the default is rejected *)
-DefaultRejected(d, e, v) == d \in kf.dirs /\ e.v = "default" /\ v = "reject"
-(* KF-C10-ext-remove-nontransitive: an ext-community "remove" action also drops the route's
-   non-transitive extended communities (here: link bandwidth) *)
-LbDropped(d, e, v, attrs) ==
-  /\ HasActMode(d, "ext", "remove") /\ ExtLB \in e.r.ext /\ e.v # "und" /\ VerdictOK(P, d, e, v)
-  /\ v = "accept" => AttrEq([e.r EXCEPT !.ext = @ \ {ExtLB}], attrs)
-EvalKF(d, p, e, o) ==
-  \/ ResultSome(d, p, e, o.v, o.attrs)
-  \/ kf.dead
-  \/ TaintedBy(d, kf.stale, {})
-  \/ DefaultRejected(d, e, o.v)
-  \/ LbDropped(d, e, o.v, o.attrs)
-C10_Verdict_KF == IsEval => /\ VerdictSome(Op.d1, Op.p1, exp.e1, Obs.r1.v) \/ EvalKF(Op.d1, Op.p1, exp.e1, Obs.r1)
-                            /\ VerdictSome(Op.d2, Op.p2, exp.e2, Obs.r2.v) \/ EvalKF(Op.d2, Op.p2, exp.e2, Obs.r2)
-C10_Attrs_KF == IsEval => /\ Obs.r1.attrs.unk = <<>> /\ Obs.r2.attrs.unk = <<>>
-                          /\ EvalKF(Op.d1, Op.p1, exp.e1, Obs.r1)
-                          /\ EvalKF(Op.d2, Op.p2, exp.e2, Obs.r2)
-
-(* KF-C10-large-add-aliasing: SetLargeCommunities appends in place; the result handed out for
-   the first peer changes its LARGE_COMMUNITY list when the policy runs for the second *)
-C10_StoredUnchanged_KF ==
-  IsEval => /\ StoredIs(Obs.stored0, Op.route)
-            /\ StoredIs(Obs.stored1, Op.route)
-            /\ (Obs.r1.v = "accept" =>
-                  \/ Obs.r1again = Obs.r1.attrs
-                  \/ SitLargeAdd /\ [Obs.r1again EXCEPT !.large = <<>>] = [Obs.r1.attrs EXCEPT !.large = <<>>])
-
-(* KF-C10-delpol-assigned: DeletePolicy(all) of a policy assigned to the IMPORT direction is accepted
-   (kf.dead from then on) *)
-C10_ReadBack_NoDangling_KF == last.ev = "Cfg" => (NoDangling \/ kf.dead)
-
-(* KF-C10-delstmt-multi *)
-C10_ConfigNoCrash_KF == last.ev = "Cfg" => (last.res # "panic" \/ kf.dead)
-
-(* KF-C10-api-origin-cond (ListStatement never reports the origin condition; ListPolicy /
-   ListPolicyAssignment report the origin ACTION's value as the origin condition) and
-   KF-C10-api-commaction-type (ListStatement reports the ext-/large-community action type shifted
-   by one): over the API, statements are compared without origin conditions and without the mode
-   of ext / large actions *)
-ApiNorm(s) == IF via = "api"
-              THEN Stmt(s.name, {c \in s.conds : c.k # "origin"},
-                        {IF a.k \in {"ext", "large"} THEN [a EXCEPT !.mode = "*"] ELSE a : a \in s.acts}, s.disp)
-              ELSE s
-C10_ReadBack_KF ==
-  (HasRb /\ ~kf.dead) => /\ RbSets
-                         /\ RbStmtsBy(DOMAIN P.stmts, ApiNorm)
-                         /\ RbPolsBy(DOMAIN P.stmts, ApiNorm)
-                         /\ RbAsgOn(kf.dirs)
 
 ---------------------------------------------------------------------------
 (* informational: the code follows the mechanism model exactly *)
